@@ -160,6 +160,7 @@ pub fn state(m128: bool, variant: usize) -> MState {
     s.regs.r = [0xFFu8, 0x00, 0x7F, 0x80][variant % 4];
     s.border = (variant % 8) as u8;
     s.port_fe = s.border;
+    s.cycles = [0u32, 31, 40000, 14335, 69000, 33][variant % 6];
     // idle loop in bank 2
     s.banks[2][0x1000..0x1003].copy_from_slice(&[0xF3, 0x18, 0xFE]);
     // a visible picture in both screens
@@ -239,6 +240,18 @@ fn check_absolute(ctx: &Ctx, m128: bool, variant: usize, s: &MState, enc: Enc, r
         // everything below drives the CPU; with a stale latch it would only produce follow-up noise
         return None;
     }
+    // frame position: SZX carries it (dwCyclesStart); every encoding of the same state - chunk order
+    // included - must leave the machine at that T-state of the frame
+    if let Enc::Szx { .. } = enc {
+        let fc = e.verif_frame_clocks() as u32;
+        if fc != s.cycles {
+            ctx.violation(
+                &format!("C14:frame-position:{}", enc_class(enc)),
+                &format!("{} with dwCyclesStart={} loaded into {:?}: the machine is at T={} of the frame", enc_name(enc), s.cycles, rx, fc),
+                case.clone(),
+            );
+        }
+    }
     let b: u8 = e.border_color().into();
     if b != s.border {
         ctx.violation(&format!("C14:border:{}:{}", enc_class(enc), mname), &format!("{}: border {} loaded as {}", enc_name(enc), s.border, b), case.clone());
@@ -279,6 +292,34 @@ fn check_absolute(ctx: &Ctx, m128: bool, variant: usize, s: &MState, enc: Enc, r
                 case.clone(),
             );
             break;
+        }
+    }
+    // the same RAM as the CPU sees it: every address of 4000..FFFF through the memory map the file
+    // describes (48K: fixed 5/2/0; 128K: 5, 2 and the bank selected by the latch)
+    {
+        let top = if m128 { (s.port7ffd & 7) as usize } else { 0 };
+        let windows = [5usize, 2, top];
+        'cpu: for (w, bank) in windows.iter().enumerate() {
+            for o in 0..16384usize {
+                let a = (0x4000 + w * 0x4000 + o) as u16;
+                let mut want = s.banks[*bank][o];
+                if !m128 && enc == Enc::Sna {
+                    let spx = s.regs.sp.wrapping_sub(2);
+                    if a == spx {
+                        want = s.regs.pc as u8;
+                    } else if a == spx.wrapping_add(1) {
+                        want = (s.regs.pc >> 8) as u8;
+                    }
+                }
+                if e.peek(a) != want {
+                    ctx.violation(
+                        &format!("C14:memory-as-seen-by-cpu:{}:{}:window{}", enc_class(enc), mname, w + 1),
+                        &format!("{} into {:?}: the CPU sees {:02x} at {:04x}, the file puts {:02x} there (bank {} in this window)", enc_name(enc), rx, e.peek(a), a, want, bank),
+                        case.clone(),
+                    );
+                    break 'cpu;
+                }
+            }
         }
     }
     // AY read-back (SZX on machines with an AY)
@@ -523,6 +564,51 @@ fn audible_ay(ctx: &Ctx) {
     }
 }
 
+/// 48K SZX whose AY chunk says "this 48K has an AY" (ZXSTAYF_128AY): the machine gets the AY with
+/// the file's registers whatever its sound settings were before; without the flag a machine that had
+/// the AY loses it (FFFD is then an unclaimed port).
+fn szx48_ay_interface(ctx: &Ctx) {
+    for had_ay in [false, true] {
+        for flag in [true, false] {
+            let mut s = state(false, 4);
+            s.ay_flags = if flag { 2 } else { 0 };
+            s.ay_chunk_48k = true;
+            s.ay_selected = 5;
+            let mut o = Opts::k48();
+            o.sound = true;
+            o.ay = had_ay;
+            let mut e = rig::emu_stepping(&o);
+            if had_ay {
+                for r in 0..14u8 {
+                    rig::cpu_out(&mut e, OUTCODE, 0xFFFD, r);
+                    rig::cpu_out(&mut e, OUTCODE, 0xBFFD, 0xEE);
+                }
+            }
+            let enc = Enc::Szx { compressed: false, order: 0, unknown: false, minor: 4 };
+            if load(&mut e, enc, encode(&s, enc, false)) != Ok(Ok(())) {
+                continue;
+            }
+            ctx.add_eval(1);
+            e.verif_set_frame_clocks(1000);
+            let case = json!({"kind":"szx48-ay","had_ay":had_ay,"flag":flag});
+            let first = rig::cpu_in(&mut e, OUTCODE, 0xFFFD);
+            let rb = ay_readback(&mut e);
+            if flag {
+                if first != s.ay_regs[5] || rb[..] != s.ay_regs[..] {
+                    ctx.violation(
+                        &format!("C14:ay:48k-ay-interface:{}", if had_ay { "machine-had-ay" } else { "machine-had-no-ay" }),
+                        &format!("48K SZX with the AY-interface flag loaded into a 48K machine with the AY {}: FFFD right after the load reads {:02x} (selected register 5 holds {:02x}), registers read back {:02x?}, file says {:02x?}", if had_ay { "on" } else { "off" }, first, s.ay_regs[5], rb, s.ay_regs),
+                        case,
+                    );
+                }
+            } else if rb.iter().any(|v| *v != 0xFF) && rb[..] == s.ay_regs[..] {
+                ctx.violation("C14:ay:48k-without-flag-keeps-ay", "48K SZX without the AY-interface flag: the AY still answers with the file's registers", case);
+            }
+            ctx.outcome(0xA9_48 ^ (had_ay as u64) << 1 ^ flag as u64);
+        }
+    }
+}
+
 /// HALTED and EILAST flags of SZX
 fn halted_and_eilast(ctx: &Ctx) {
     for m128 in [false, true] {
@@ -744,6 +830,7 @@ pub fn run(tier: Tier, seed: u64, replay: Option<String>) -> i32 {
         println!("replay: re-running the '{}' family of {}", v["case"]["kind"], v["case"]);
         match v["case"]["kind"].as_str().unwrap_or("") {
             "halted" | "eilast" => halted_and_eilast(&ctx),
+            "szx48-ay" => szx48_ay_interface(&ctx),
             "mismatch" => model_mismatch(&ctx),
             "scr" => scr_files(&ctx),
             "ay-audible" => audible_ay(&ctx),
@@ -756,13 +843,14 @@ pub fn run(tier: Tier, seed: u64, replay: Option<String>) -> i32 {
     states_x_encodings(&ctx, quick);
     audible_ay(&ctx);
     halted_and_eilast(&ctx);
+    szx48_ay_interface(&ctx);
     model_mismatch(&ctx);
     scr_files(&ctx);
     ctx.add_nontrivial(ctx.evaluations.load(std::sync::atomic::Ordering::Relaxed));
     ctx.sample(json_case(true, 3, Enc::Szx { compressed: true, order: 4, unknown: false, minor: 4 }, Rx::Locked, "absolute"));
     ctx.note("not_judged", json!("which of the two published conventions (PC on the HALT / after it) an SZX with HALTED uses; IFF1 and AY/hidden latches for SNA (not carried); mouse presence is checked only through SZX"));
     ctx.finish(
-        "abstract states (registers incl. alternates, IM, I/R boundary values, border, six paging values incl. shadow screen and lock, position-coded RAM in all banks, pictures in both screens, AY register file) written by the spec-based writers as SNA, SZX stored, SZX zlib, SZX in 6 chunk orders, SZX with unknown chunks interleaved, v1.4/1.5; loaded through assets returning short reads of rotating sizes {whole,1,2,3,7,127,128,129} into seven receivers (fresh, halted, mid FD prefix, paging locked, everything different incl. AY, ROM running mid-frame, paging latch already equal to the file's byte); absolute oracle: registers, IFFs, IM, HALT/prefix/EI latches cleared, border, paging latch+lock+map, every RAM bank, AY selected register and all 16 registers read back through the ports, picture after 3 frames = decode of the file's displayed screen, and of the other screen after the program flips bit 3; differential: all encodings x receivers of one state end in the same digest of registers, RAM and both frame buffers; audible AY state vs a port-written reference, and a one-shot envelope restarted by loading the same file again after it has decayed; HALTED (both PC conventions, also with a 76h byte in front of the HALT; exactly one interrupt must release it and return behind the HALT) and EILAST; files for the other model; SCR into four receivers. distinct_nontrivial = loads",
+        "abstract states (registers incl. alternates, IM, I/R boundary values, border, six paging values incl. shadow screen and lock, position-coded RAM in all banks, pictures in both screens, AY register file) written by the spec-based writers as SNA, SZX stored, SZX zlib, SZX in 6 chunk orders, SZX with unknown chunks interleaved, v1.4/1.5; loaded through assets returning short reads of rotating sizes {whole,1,2,3,7,127,128,129} into seven receivers (fresh, halted, mid FD prefix, paging locked, everything different incl. AY, ROM running mid-frame, paging latch already equal to the file's byte); absolute oracle: registers, IFFs, IM, HALT/prefix/EI latches cleared, border, paging latch+lock+map, every RAM bank (by bank and as the CPU sees it at every address of 4000..FFFF), AY selected register and all 16 registers read back through the ports, picture after 3 frames = decode of the file's displayed screen, and of the other screen after the program flips bit 3; differential: all encodings x receivers of one state end in the same digest of registers, RAM and both frame buffers; audible AY state vs a port-written reference, and a one-shot envelope restarted by loading the same file again after it has decayed; 48K SZX with/without the AY-interface flag into 48K machines with the AY on/off; HALTED (both PC conventions, also with a 76h byte in front of the HALT; exactly one interrupt must release it and return behind the HALT) and EILAST; files for the other model; SCR into four receivers. distinct_nontrivial = loads",
         false,
         &["writers in formats.rs follow the published SNA/SZX layouts, not the loaders"],
     )
